@@ -133,6 +133,14 @@ Ck1AfterPeriodic(v, c0, pat, o, kW) ==
         CkTail(c, t) == IF t = WModSmall(kW, p) THEN c ELSE CkTail(CkStep(v, c, pat, o + t), t + 1)
     IN  CkTail(c1, 0)
 
+\* Three-byte checksums: bytes 2 and 3 depend on byte 1, their joint cycle can be 2^24 long, so there
+\* is no small period map; over MiB-scale deliveries the three bytes are simply stepped (three table
+\* look-ups per input byte, no bucket work), which TLC does at about 40 000 bytes per second.
+CkStepped(v, ck, pat, off, k) ==
+    LET p == Len(pat) IN
+    FoldLeft(LAMBDA c, t : CkUpdate(v, c, pat[((off + t) % p) + 1], pat[((off + t + p - 1) % p) + 1]),
+             ck, [t \in 1..k |-> t - 1])
+
 GenUpdatePeriodicClosed(v, g, pat, off, k) ==
     LET p  == Len(pat)
         win(r) == \* the window whose newest byte has residue r
@@ -148,14 +156,15 @@ GenUpdatePeriodicClosed(v, g, pat, off, k) ==
         newTail == IF k >= 4 THEN PeriodicData(pat, off + k - 4, 4)
                    ELSE SubSeq(g.tail, k + 1, 4) \o PeriodicData(pat, off, k)
     IN  [g EXCEPT !.bk = bk2,
-                  !.ck = <<Ck1AfterPeriodic(v, g.ck[1], pat, off % p, WOfNat(k))>>,
+                  !.ck = IF v.ckLen = 1 THEN <<Ck1AfterPeriodic(v, g.ck[1], pat, off % p, WOfNat(k))>>
+                         ELSE CkStepped(v, g.ck, pat, off, k),
                   !.len = WAddNat(g.len, k),
                   !.tail = newTail]
 
 \* k periodic bytes from any state: short deliveries and the first bytes of
 \* a long one are stepped explicitly, the bulk goes through the closed form.
 GenUpdatePeriodic(v, g, pat, off, k) ==
-    IF k <= 16 \/ v.ckLen # 1 THEN GenUpdate(v, g, PeriodicData(pat, off, k))
+    IF k <= 16 THEN GenUpdate(v, g, PeriodicData(pat, off, k))
     ELSE LET g1 == GenUpdate(v, g, PeriodicData(pat, off, 8)) IN
          IF PeriodicPre(v, g1, pat, off + 8, k - 8)
          THEN GenUpdatePeriodicClosed(v, g1, pat, off + 8, k - 8)
